@@ -352,10 +352,10 @@ pub fn appended_sets(d: &Driver) -> BTreeMap<String, BTreeSet<Rec>> {
     let mut a: BTreeMap<String, BTreeSet<Rec>> = BTreeMap::new();
     for s in &d.steps {
         if let (Op::Append { q, lens, uid, .. }, Outcome::Appended { last: Some(last), .. }) = (&s.op, &s.expected) {
-            let first = last + 1 - lens.len() as u64;
+            let first = last.wrapping_add(1).wrapping_sub(lens.len() as u64);
             let set = a.entry(d.names[*q].clone()).or_default();
             for (k, &l) in lens.iter().enumerate() {
-                set.insert(Rec::of(first + k as u64, &crate::model::payload(*uid, k as u32, l as usize)));
+                set.insert(Rec::of(first.wrapping_add(k as u64), &crate::model::payload(*uid, k as u32, l as usize)));
             }
         }
     }
@@ -673,10 +673,10 @@ pub fn damage_then(prop: &str, d: &Driver, case: &Case, image: &Image, ops: &[Da
     for op in cont {
         let o = cd.step(op.clone());
         if let (Op::Append { q, lens, uid, .. }, Outcome::Appended { last: Some(last), .. }) = (op, &o) {
-            let first = last + 1 - lens.len() as u64;
+            let first = last.wrapping_add(1).wrapping_sub(lens.len() as u64);
             let set = a.entry(cd.names[*q].clone()).or_default();
             for (k, &l) in lens.iter().enumerate() {
-                set.insert(Rec::of(first + k as u64, &crate::model::payload(*uid, k as u32, l as usize)));
+                set.insert(Rec::of(first.wrapping_add(k as u64), &crate::model::payload(*uid, k as u32, l as usize)));
             }
         }
         if cd.world.log.is_none() {
